@@ -14,7 +14,7 @@ PROP = {
             "file or a Lua file",
     "min_nontrivial": {"quick": 30000, "thorough": 1000000},
     "max_secs": {"quick": 75, "thorough": 1000},
-    "require_clauses": ["a:no-crash", "a:lua-config-in-child", "b:invalid-file-skipped", "family:json", "family:malformed", "family:lua", "family:odd-lua", "family:missing"],
+    "require_clauses": ["a:no-crash", "a:lua-config", "b:invalid-file-skipped", "family:json", "family:malformed", "family:lua", "family:odd-lua", "family:missing"],
     "assumptions": COMMON_ASSUME + [
         "environment of the expansion: HOME is a private directory, VERIF_TILDE='~', VERIF_EMPTY='', VERIF_UNSET_VARIABLE unset; no luarocks binary",
         "clause b (skip or defaults) is only applied to files that are certainly not JSON / unreadable, and only when the other files contain no colliding keys",
@@ -22,6 +22,7 @@ PROP = {
     ],
     "level_text": "Generated hostile configuration sets are loaded by the real loader and path expander; a panic, abort or confirmed hang is a violation. "
                   "~64k (quick) cases. Exploration, not proof.",
+    "abort_is_violation": True,
     "level_note": "Only load_configs + pre_process_emmyrc are driven (what emmylua_ls / emmylua_check / emmylua_doc_cli call); the server's own file discovery "
                   "(load_emmy_config) is not.",
 }
